@@ -638,7 +638,7 @@ func ruleDescRole(r *Run) {
 // ---------------------------------------------------------------------------
 
 func init() {
-	register(&Rule{Name: "FD-LOCAL", Floor: 6,
+	register(&Rule{Name: "FD-LOCAL", Floor: 4,
 		Doc: "a field descriptor taken from the routing tree (method.vars/body/resp, param.fds: registered once per method name, possibly by another backend) is used on a message only after being localised to that message's own descriptor (a stored descriptor of another registration is foreign to the message: protoreflect panics)",
 		Run: ruleFDLocal})
 }
